@@ -153,9 +153,3 @@ void h_drive(void) { cv_i32 a, b, v; cv_i32 s = nondet_int(); __CPROVER_assume(s
   __CPROVER_assert(gh_wait_calls == 0, "asynchronous access never blocks the thread");
   if (s == 0) __CPROVER_assert(0, "SENTINEL reachable: co_await next()"); else __CPROVER_assert(0, "SENTINEL reachable: co_await of the call future"); }
 #endif
-#ifdef DRIVE_dbg1
-void h_drive(void) { cv_i32 a, b, v; drive_dbg1(a, b, v); __CPROVER_assert(0, "SENTINEL reachable"); }
-#endif
-#ifdef DRIVE_dbg2
-void h_drive(void) { cv_i32 a, b, v; drive_dbg2(a, b, v); __CPROVER_assert(0, "SENTINEL reachable"); }
-#endif
